@@ -136,6 +136,47 @@ def run(ctx):
             metas.append(("how", str(idx[i]), int(how[i]), int(idx[i].month), int(idx[i].year), int(idx[i].day)))
         sigs.add(("zone", zone, year))
 
+    # ---- (1b) the weight of an hour does not depend on what else the index contains: partial and non-contiguous indexes
+    # (a baseline that does not reach into some month must still give that month's neighbours their half weight)
+    partial_windows = [("two weeks of january", [("2020-01-06", "2020-01-20")]), ("feb..dec", [("2019-02-01", "2020-01-01")]),
+                       ("one day", [("2020-07-04", "2020-07-05")]), ("across a month edge", [("2020-03-20", "2020-04-10")]),
+                       ("two separate stretches", [("2020-02-10", "2020-02-20"), ("2020-09-25", "2020-10-05")])]
+    for zone in zones[: (2 if not thorough else 6)]:
+        for label, stretches in partial_windows:
+            idx = pd.DatetimeIndex([]).tz_localize(zone)
+            for a, b in stretches:
+                idx = idx.append(pd.date_range(a, b, freq="h", tz=zone, inclusive="left"))
+            months = idx.month.to_numpy()
+            for drop in (False, True):
+                try:
+                    w = segment_time_series(idx, "three_month_weighted", drop_zero_weight_segments=drop)
+                except Exception as e:  # noqa
+                    res["oracle_failures"].append(dict(clause="fit_weights_partial_index_raises", zone=zone, index=label, drop_zero_weight_segments=drop,
+                                                       error=f"{type(e).__name__}: {str(e)[:100]}"))
+                    continue
+                cols = list(w.columns)
+                vals = w.to_numpy()
+                want_cols = set()
+                bad = None
+                for i in range(len(idx)):
+                    m = int(months[i])
+                    exp = {expected_fit_name(m): 1.0, expected_fit_name((m - 2) % 12 + 1): 0.5, expected_fit_name(m % 12 + 1): 0.5}
+                    want_cols |= set(exp)
+                    got = {c: float(v) for c, v in zip(cols, vals[i]) if v != 0}
+                    res["evaluations"] += 1
+                    if got != exp and bad is None:
+                        bad = dict(clause="fit_weights", zone=zone, index=label, drop_zero_weight_segments=drop, stamp=str(idx[i]), got=got, expected=exp)
+                if bad is not None:
+                    res["oracle_failures"].append(bad)
+                elif drop and set(cols) != want_cols:
+                    res["oracle_failures"].append(dict(clause="fit_segments_kept", zone=zone, index=label, kept=sorted(cols), expected=sorted(want_cols)))
+                sigs.add(("partial_index", label, drop))
+                if not drop:
+                    ls_p = local_secs(idx)
+                    for i in range(0, len(idx), 29):
+                        lines.append(f"segrow three_month_weighted {int(ls_p[i])}")
+                        metas.append(("segrow", "three_month_weighted", str(idx[i]), cols, vals[i]))
+
     # invalid segment type
     try:
         segment_time_series(pd.date_range("2020-01-01", periods=3, freq="h", tz="UTC"), "bogus")
